@@ -181,6 +181,14 @@ def gen_program(rng: random.Random) -> dict:
                 consts[base + "__size"] = ln
                 prog.append({"k": "incbin", "f": fname})
                 expected += data
+                if rng.random() < 0.15 and "/" not in fname and (fname.replace(".", "-")) not in files:
+                    # another file whose name differs from this one in a single character that is no letter (tiles.bin / tiles-bin): two files,
+                    # two start symbols; the first one's symbol keeps meaning the first file
+                    twin_name = fname.replace(".", "-")
+                    twin_data = rng.randbytes(rng.choice([1, 3, 9]))
+                    files[twin_name] = twin_data
+                    prog.append({"k": "incbin", "f": twin_name})
+                    expected += twin_data
                 if rng.random() < 0.3 and "'" not in fname:
                     # the file's name as text (a directory table): a quoted string of .ascii is data
                     prog.append({"k": "ascii", "t": fname})
